@@ -3,7 +3,7 @@ use crate::engine::{catch, fnv, par, splitmix, Run};
 use crate::kit::flpkit::{Spec, Visit};
 use crate::kit::ints::{modpow, nth_vector, pow_u64, IntConv, KitField};
 use prio::field::verif::FieldV17;
-use prio::flp::{FlpError, Type};
+use prio::flp::Type;
 use serde_json::json;
 use std::sync::atomic::{AtomicU64, Ordering};
 use std::sync::Mutex;
@@ -148,7 +148,7 @@ where
                                     run.fail(&format!("small/{name}/query_panic"), &format!("{name}: query panicked: {m}"), case());
                                     return;
                                 }
-                                Ok(Err(FlpError::Query(_))) if expect_refused => {
+                                Ok(Err(_)) if expect_refused => {
                                     refused_n.fetch_add(1, Ordering::Relaxed);
                                     continue;
                                 }
